@@ -157,6 +157,8 @@ def strata():
                      gen_cfg.model_and_spec(force=['global_enc']),
                      gen_cfg.model_and_spec(force=['empty_itf', 'many_ports'], want_mixed=True),
                      gen_cfg.model_and_spec(force=['no_ports']),
+                     gen_cfg.model_and_spec(force=['shadow_ns'], want_mc=True),
+                     gen_cfg.model_and_spec(force=['shadow_ns', 'nested_enum', 'many_ports']),
                      gen_cfg.model_and_spec(force=['many_provides'], want_mc=True),
                      gen_cfg.model_and_spec(force=['prefix_ns', 'deep_ns'], shadow=True),
                      gen_cfg.model_and_spec(force=['deep_ns', 'same_name_siblings'], shadow=True),
